@@ -5,6 +5,7 @@ import UcantoModel.Model.WorldJson
 import UcantoModel.Model.Http
 import UcantoModel.Model.CarDriver
 import UcantoModel.Model.Did
+import UcantoModel.Model.Cost
 /-!
 # Line-protocol driver
 stdin: one case per line, TAB separated: `op  arg1  arg2 …`
@@ -196,6 +197,29 @@ def doSigNew (code raw : String) : String :=
     s!"{Bytes.toHexTok s}|{sigCode s}|{sigSize s}|{Bytes.toHexTok (sigRaw s)}\t-"
   | _, _ => bad "signew"
 
+/-- `cost`: number of signature verifications. The property is an upper bound, so fewer
+verifications than the model's un-memoised search is agreement; more is not. -/
+def doCost (world impl : String) : String :=
+  match Lean.Json.parse world >>= WorldJson.parseWorld with
+  | .ok p =>
+    let fuel := 64 + 4 * p.ntokens
+    let (r, c) := V.accessC p.W fuel p.d p.inv
+    let mo := match r with | .ok _ => "ok" | .fail _ => "fail" | .oof => "oof"
+    match impl.splitOn ":" with
+    | [io, ic] =>
+      match ic.toNat? with
+      | some ic =>
+        let agree := io == mo && ic ≤ c
+        let n := p.ntokens
+        let oracle :=
+          if ic > c then s!"fail:C19-excess impl={ic} model={c} n={n}: more signature verifications than the exhaustive un-memoised search performs"
+          else if ic > n * n then s!"fail:C19-bound impl={ic} model={c} n={n}: {ic} signature verifications for {n} delegations exceeds n^2"
+          else "ok"
+        s!"{if agree then impl else s!"{mo}:{c}"}\t{oracle}"
+      | none => bad "cost impl"
+    | _ => s!"{mo}:{c}\t-"
+  | .error e => bad s!"world:{e}"
+
 def handle (line : String) : String :=
   match line.splitOn "\t" with
   | ["access", mode, world, spine, checker, _, impl] => doAccess mode world spine checker impl
@@ -213,6 +237,7 @@ def handle (line : String) : String :=
   | ["carflip", r, b, m, impl] => doCar "carflip" [r, b, m] impl
   | ["handle", ct, acc, body, _] => doHandle ct acc body
   | ["channel", st, _, _] => doChannel st
+  | ["cost", world, impl] => doCost world impl
   | ["bsconc", _, _, _, _, _, impl] => (if impl.startsWith "consistent:" then impl else "consistent") ++ "\t-"
   | ["req", _, impl] => (if impl.startsWith "status:" || impl == "error" || impl.startsWith "skip:" then impl else "status-or-error") ++ "\t-"
   | ["reqmut", _, _, _, impl] => (if impl.startsWith "status:" || impl == "error" || impl.startsWith "skip:" then impl else "status-or-error") ++ "\t-"
